@@ -8,6 +8,8 @@ CONSTANTS
   PemCounts = {2, 3}
   MaxUiPages = 4
   EmptyAuthRefused = FALSE
+  UdSources = {"hex", "node"}
+  RootVias = {"file", "url"}
   Bug = "nobind"
 INVARIANT AlteredFails
 CHECK_DEADLOCK FALSE
